@@ -329,3 +329,77 @@ inst!(c09_dist_a3_b3, 8, distances::<3, 4, 3>());
 inst!(c09_dist_a2_b3, 8, distances::<2, 3, 3>());
 inst!(c09_dist_a3_b1, 8, distances::<3, 4, 1>());
 inst!(c09_dist_a4_b4, 9, distances::<4, 5, 4>());
+
+/// Text wildcard through MyersBuilder (no ambiguity codes, so the builder's HashMap stays empty): a text symbol 'N'
+/// matches every pattern symbol. Pattern over {A,C} (M symbols, may fill the whole word), text over {A,C,N}.
+#[cfg(kani)]
+pub fn myers_u8_wildcard<const M: usize, const M1: usize, const N: usize>() {
+    use bio::pattern_matching::myers::MyersBuilder;
+    let p = crate::c09::sym_over::<M>(b"AC");
+    let t = crate::c09::sym_over::<N>(b"ACN");
+    let k: u8 = kani::any();
+    kani::assume(k as usize <= M);
+    // DP with wildcard-aware equality
+    let mut want = [0usize; N];
+    let mut col = [0usize; M1];
+    let mut i = 0;
+    while i < M1 {
+        col[i] = i;
+        i += 1;
+    }
+    let mut j = 0;
+    while j < N {
+        let mut diag = col[0];
+        col[0] = 0;
+        let mut i = 1;
+        while i < M1 {
+            let up = col[i - 1] + 1;
+            let left = col[i] + 1;
+            let sub = diag + (p[i - 1] != t[j] && t[j] != b'N') as usize;
+            diag = col[i];
+            let mut best = up;
+            if left < best {
+                best = left;
+            }
+            if sub < best {
+                best = sub;
+            }
+            col[i] = best;
+            i += 1;
+        }
+        want[j] = col[M];
+        j += 1;
+    }
+    let mut b = MyersBuilder::new();
+    b.text_wildcard(b'N');
+    let my: Myers<u8> = b.build(p.iter());
+    let mut it = my.find_all_end(t.iter(), k);
+    let mut hits = 0;
+    let mut j = 0;
+    while j < N {
+        if want[j] <= k as usize {
+            assert!(it.next() == Some((j, want[j] as u8)), "C09: Myers with text wildcard differs from the wildcard-aware DP");
+            hits += 1;
+        }
+        j += 1;
+    }
+    assert!(it.next().is_none(), "C09: spurious hit");
+    kani::cover!(hits >= 1 && t[N - 1] == b'N', "hit ending at a wildcard");
+    core::mem::forget(my);
+    core::mem::forget(b);
+}
+
+#[cfg(kani)]
+pub fn sym_over<const N: usize>(alpha: &[u8]) -> [u8; N] {
+    let mut t = [0u8; N];
+    let mut i = 0;
+    while i < N {
+        let k: usize = kani::any();
+        kani::assume(k < alpha.len());
+        t[i] = alpha[k];
+        i += 1;
+    }
+    t
+}
+inst!(c09_myers_u8_wild_m3_n3, 8, myers_u8_wildcard::<3, 4, 3>());
+inst!(c09_myers_u8_wild_m8_n3, 12, myers_u8_wildcard::<8, 9, 3>());
